@@ -360,6 +360,8 @@ PROPS["C03"]["runs"] = lambda tier: _c03_runs(tier) + [
     dict(family="lifecycle", n=T(tier, 150, 4000), params={"sock_errors": 1}, flavour="checked"),
     dict(family="ep-ideal", n=T(tier, 60, 2000), params={"tiny_rates": 1}),
     dict(family="ep-ideal", n=T(tier, 60, 2000), params={"tiny_rates": 1}, flavour="checked"),
+    # (the ordinary configurations of ep-ideal: limits and rates up to 2^64-1; found defect #27)
+    dict(family="ep-ideal", n=T(tier, 100, 3000), params={}, flavour="checked"),
 ]
 PROPS["C03"]["rule"] += (" ep-hostile: a real Server with an honest bystander client, attacked by a raw peer that completes the handshake by hand (hostile limits incl. 0 and 2^32-1) and then sends "
                          "frames composed against the server-side connection state, plus spoofed strangers; or a real Client facing a raw hostile server. After the attack the bystander must still be "
@@ -410,3 +412,23 @@ _add_runs("C17", lambda tier: [ep("limits", 800, 30000, tier, "C17", **SE)], SE_
 _add_runs("C18", lambda tier: [ep("amplify", 800, 30000, tier, "C18", **SE), ep("limits", 150, 6000, tier, "C18", **SE)], SE_RULE + " (Bytes of refused sends were never transmitted and are not counted.)", ["sends_refused_by_the_socket"])
 _add_runs("C19", lambda tier: [dict(family="lifecycle", n=T(tier, 150, 5000), params=dict(SE)), dict(family="limits", n=T(tier, 60, 2000), params=dict(SE))], SE_RULE, ["sends_refused_by_the_socket"])
 _add_runs("C01", lambda tier: [ep("lifecycle", 150, 5000, tier, "C01", **SE)], SE_RULE, ["sends_refused_by_the_socket"])
+
+# receive errors of the socket with every oracle on (tenth round): every 5th / 17th / 50th receive
+# call of one or both sides fails, and / or bursts of 1 ms..1.5 s in which every receive call of a
+# side fails (ECONNREFUSED after an ICMP error, EINTR): the endpoint's receive loop of that step
+# ends, nothing is consumed, the queue waits for the next step. Nothing is lost, so even the
+# ideal-network clauses keep their premise; clauses that speak about the step that READ a frame use
+# the observed read time (the harness watches the length of every socket's FIFO queue).
+RE = {"recv_errors": 1}
+RE_RULE = (" recv_errors runs: the same sessions while receive calls of one or both endpoints' sockets fail (every 5th..50th call and / or bursts of 1 ms..1.5 s; nothing is consumed by a failing call, "
+           "the socket recovers after 40 s); all oracles of the family stay on, 'read by' clauses use the observed read time of each datagram.")
+_add_runs("C03", lambda tier: [dict(family="timers", n=T(tier, 100, 3000), params=dict(RE), flavour="checked"), dict(family="ep-ideal", n=T(tier, 60, 2000), params=dict(RE), flavour="checked")], RE_RULE, ["receive_calls_failed_by_the_socket"])
+_add_runs("C05", lambda tier: [dict(family="ep-ideal", n=T(tier, 150, 6000), params=dict(RE))], RE_RULE, ["receive_calls_failed_by_the_socket"])
+_add_runs("C07", lambda tier: [ep("lifecycle", 200, 8000, tier, "C07", **RE), ep("limits", 200, 8000, tier, "C07", **RE)], RE_RULE, ["receive_calls_failed_by_the_socket"])
+_add_runs("C08", lambda tier: [ep("lifecycle", 300, 10000, tier, "C08", **RE)], RE_RULE, ["receive_calls_failed_by_the_socket"])
+_add_runs("C09", lambda tier: [ep("disconnect", 500, 20000, tier, "C09", **RE), ep("timers", 400, 15000, tier, "C09", **RE)], RE_RULE, ["receive_calls_failed_by_the_socket"])
+_add_runs("C10", lambda tier: [ep("timers", 1000, 30000, tier, "C10", **RE)], RE_RULE + " (The keepalive clause is not judged in these runs.)", ["receive_calls_failed_by_the_socket"])
+_add_runs("C13", lambda tier: [dict(family="ep-ideal", n=T(tier, 100, 4000), params=dict(RE))], RE_RULE, ["receive_calls_failed_by_the_socket"])
+_add_runs("C17", lambda tier: [ep("limits", 500, 20000, tier, "C17", **RE)], RE_RULE, ["receive_calls_failed_by_the_socket"])
+_add_runs("C18", lambda tier: [ep("amplify", 500, 20000, tier, "C18", **RE)], RE_RULE, ["receive_calls_failed_by_the_socket"])
+_add_runs("C19", lambda tier: [dict(family="lifecycle", n=T(tier, 100, 4000), params=dict(RE))], RE_RULE, ["receive_calls_failed_by_the_socket"])
